@@ -802,7 +802,9 @@ class LangServer:
                 and (
                     (
                         line_prefix.lstrip().lower().startswith("procedure")
-                        and (line_prefix.count("=>") > 0)
+                        # (the name after the last `=>` of the last binding: in
+                        # `aa => impl_a, bb` the cursor is on a binding name)
+                        and (line_prefix.rsplit(",", 1)[-1].count("=>") > 0)
                     )
                     or TYPE_DEF_REGEX.match(line_prefix)
                 )
